@@ -90,10 +90,39 @@ void Normalizer::Imperative(SyntaxTree::Node& root) {
   }
 }
 
+void Normalizer::CollectLocalNames(const SyntaxTree::Node& target, NameSubstitutes& names) {
+  if (target.token.id == TokenID::ID_LOCAL) {
+    const auto& name = target.token.data.ToText();
+    if (!names.contains(name)) {
+      ++localVarBase;
+      names.insert({ name, R"(__var)" + std::to_string(localVarBase) });
+    }
+  }
+  for (Index child = 0; child < target.ChildrenCount(); ++child) {
+    CollectLocalNames(target(child), names);
+  }
+}
+
+void Normalizer::RenameLocals(SyntaxTree::Node& target, const NameSubstitutes& names) {
+  if (target.token.id == TokenID::ID_LOCAL) {
+    if (const auto iter = names.find(target.token.data.ToText()); iter != std::end(names)) {
+      target.token.data = TokenData{ iter->second };
+    }
+  }
+  for (Index child = 0; child < target.ChildrenCount(); ++child) {
+    RenameLocals(target(child), names);
+  }
+}
+
 void Normalizer::EnumDeclaration(SyntaxTree::Node& quant) {
   auto newQuant = std::make_unique<SyntaxTree::Node>(quant.token);
   newQuant->AddChildCopy(quant(0));
   newQuant->AddChildCopy(quant(1));
+  // Note: the copied domain is evaluated inside the scope of the preceding variables,
+  // so locals declared by the domain itself must not share names with the declared variables
+  NameSubstitutes declared{};
+  CollectLocalNames(quant(0), declared);
+  RenameLocals(newQuant->At(1), declared);
   newQuant->AdoptChild(quant.ExtractChild(2));
 
   if (quant(0).ChildrenCount() > 2) {
